@@ -328,6 +328,9 @@ def sample_payload(typ, key, kind, rnd=None, depth=0):
     if kind == "keyvalue":
         if rnd and rnd.random() < 0.25:
             return [("Key_One", "value one"), ("wms_title", 'The \\"best\\" title'), ("k3", "3")]    # an escaped quote inside a value
+        if rnd and rnd.random() < 0.25:
+            # a key given twice (in two spellings) with another key in between: the last value wins, at the first position
+            return [("wms_title", "first"), ("wms_srs", "EPSG:4326"), ("WMS_TITLE", "second"), ("k3", "3")]
         return [("Key_One", "value one"), ("wms_title", "Title"), ("k3", "3")]
     if kind == "repeated":
         return "BANDS=1,2,3" if key != "include" else "other.map"
@@ -391,3 +394,40 @@ def all_slots():
         for key in simple_keys(typ):
             for alt in alternatives(typ, key):
                 yield typ, key, alt
+
+
+def payload_variants(typ, key, kind):
+    """the shapes of a block-valued / repeatable keyword that the single-cell documents cover deterministically"""
+    if kind == "keyvalue":
+        return [[("Key_One", "value one"), ("wms_title", "Title"), ("k3", "3")],
+                [("Key_One", "value one"), ("wms_title", 'The \\"best\\" title'), ("k3", "3")],
+                [("wms_title", "first"), ("wms_srs", "EPSG:4326"), ("WMS_TITLE", "second"), ("k3", "3")],
+                []]
+    if kind == "projection":
+        return [["init=epsg:4326"], ["proj=utm", "zone=11", "datum=WGS84"], ["proj=longlat", "'init=epsg:4326'", "no_defs"]]
+    if kind in ("children", "child"):
+        ctyp = PLURAL.get(key, key)
+        return [minimal(ctyp)] if ctyp in SC.object_types() else []
+    try:
+        return [sample_payload(typ, key, kind)]
+    except ValueError:
+        return []
+
+
+def block_documents():
+    """(key, root node, path): every block-valued / repeatable keyword of every type, in every payload variant; repeatable
+    ones (PROCESSING ..., child lists, POINTS under FEATURE) also given twice"""
+    for typ in SC.object_types():
+        if typ == "symbolset":
+            continue
+        for key, kind in block_keys(typ):
+            for vi, payload in enumerate(payload_variants(typ, key, kind)):
+                for twice in ((False, True) if (kind in ("repeated", "children") or (kind == "points" and typ == "feature")) else (False,)):
+                    if twice and kind == "children" and SC.expanded(typ)["properties"][key].get("maxItems") == 1:
+                        continue
+                    node = minimal(typ)
+                    node.add(key, kind, payload)
+                    if twice:
+                        node.add(key, kind, payload if kind != "repeated" else "SECOND=2")
+                    root, path = wrap_in_parents(node)
+                    yield f"{typ}.{key}:{kind}:v{vi}{'x2' if twice else ''}", root, path
